@@ -1,26 +1,29 @@
 """C27 - a loadable autosave always survives a crash during autosaving.
 
-(C) The file-system operations of the real save_simulation are RECORDED (audit events open /
-    os.rename / os.remove, i.e. whatever API the code uses) for the first saves of a real run and
-    handed to TLC as the protocol constant of Autosave.tla; TLC explores a crash before / after every
-    operation and in the middle of the write and prints its prediction for every crash point.
-(A) Real fault injection: for the 2nd and 3rd save, a crash is injected at EVERY crash point of the
-    real code (exception raised from the audit hook before the operation executes; mid-write crash
-    raised while the snapshot is being pickled); afterwards the advertised file must exist, unpickle
-    and `MPSBackend.resume` must run to completion.  A VIOLATION is raised only for a real crash point
-    that leaves no loadable snapshot under the advertised name.
+(C) A real run (child process) RECORDS what save_simulation does to the file system: every file-system
+    operation (audit events open / os.rename / os.remove -- whatever API the code uses) and, at every bytecode
+    instruction of save_simulation, the on-disk size of every file in the run directory (so the moment the
+    snapshot is COMPLETELY on disk is observed, not assumed).  The recorded operation list of the first three
+    saves becomes the protocol constant of Autosave.tla; TLC explores a crash between any two operations and
+    in the middle of the write and prints its prediction for every crash point.
+(A) Real fault injection by PROCESS DEATH: for the 2nd and 3rd save a child process is killed with os._exit
+    (no unwinding, no flushing) immediately before and immediately after every recorded operation, in the
+    middle of the write and right after the save; afterwards the advertised file must exist, unpickle and
+    `MPSBackend.resume` must run to completion.  A VIOLATION is raised only for a real crash point that leaves
+    no loadable snapshot under the advertised name.
 """
 from __future__ import annotations
 
 import json
 import os
 import pickle
+import subprocess
+import sys
 from pathlib import Path
 
-from harness import fsaudit
-from harness.core import Ctx, MachineryError
-from harness.smallruns import observables, small_spec
-from harness.gen import seqs
+from harness.core import ROOT, Ctx, MachineryError
+from harness.pool import pmap
+from harness.smallruns import observables
 from harness.tlc import printed_tuples, run_tlc
 
 
@@ -36,228 +39,229 @@ def _cfg(kind: str, dt: float = 10.0):
     return MPSConfig(**kw)
 
 
-def _run_real(workdir: Path, kind: str, crash_op: int | None = None, midwrite_save: int | None = None, crash_after_save: int | None = None):
-    """One real run in `workdir` with forced autosave.  Returns dict(ops, events, crashed, results, base)."""
-    import random
+SCENARIO = "6,60"   # atoms, duration: snapshots larger than one buffered write, dozens of saves
+
+
+def _child(kind: str, workdir: Path, mode: str, n: int | None = None, timeout: int = 1800) -> int:
+    env = dict(os.environ)
+    env["C27_SCENARIO"] = SCENARIO
+    env["PYTHONPATH"] = str(ROOT) + os.pathsep + env.get("PYTHONPATH", "")
+    env["OMP_NUM_THREADS"] = "1"
+    cmd = [sys.executable, "-m", "harness.c27_child", kind, str(workdir), mode] + ([str(n)] if n is not None else [])
+    p = subprocess.run(cmd, cwd=str(ROOT), env=env, capture_output=True, text=True, timeout=timeout)
+    if p.returncode not in (0, 77):
+        raise MachineryError(f"C27 child failed rc={p.returncode}: {p.stderr[-1500:]}")
+    return p.returncode
+
+
+def kill_worker(job: dict) -> dict:
+    """Kill a real run right before instruction `n` of save_simulation, then try to resume from the advertised file."""
     import torch
-    from emu_base import _verif
-    from emu_mps import MPSBackend
-    from emu_mps.mps_backend_impl import MPSBackendImpl
 
-    workdir.mkdir(parents=True, exist_ok=True)
-    old = os.getcwd()
-    os.chdir(workdir)
-    os.environ["PASQAL_IO_EMULATORS_VERIF_AUTOSAVE"] = "always"
-    if crash_after_save is not None:
-        os.environ["PASQAL_IO_EMULATORS_VERIF_CRASH_AFTER_SAVE"] = str(crash_after_save)
-    else:
-        os.environ.pop("PASQAL_IO_EMULATORS_VERIF_CRASH_AFTER_SAVE", None)
-    ev: list = []
-    _verif.reset()
-    _verif.set_sink(ev)
-    random.seed(1234)
-    torch.manual_seed(1234)
-    seq = seqs.build_sequence(small_spec(3, 30))
-    orig_getstate = MPSBackendImpl.__getstate__
-    state = {"pickles": 0}
-
-    def getstate(self):  # harness-level wrapper: crash while the snapshot is being written
-        state["pickles"] += 1
-        if midwrite_save is not None and state["pickles"] == midwrite_save:
-            raise _verif.VerifCrash("injected crash in the middle of the snapshot write")
-        return orig_getstate(self)
-
-    MPSBackendImpl.__getstate__ = getstate
-    ops = fsaudit.start(str(workdir), crash_at=crash_op, exc=_verif.VerifCrash)
-    out = {"crashed": False, "results": None, "error": None}
-    try:
-        out["results"] = MPSBackend(seq, config=_cfg(kind)).run()
-    except _verif.VerifCrash as e:
-        out["crashed"] = True
-        out["error"] = str(e)
-    finally:
-        fsaudit.stop()
-        MPSBackendImpl.__getstate__ = orig_getstate
-        _verif.set_sink(None)
-        os.environ.pop("PASQAL_IO_EMULATORS_VERIF_AUTOSAVE", None)
-        os.environ.pop("PASQAL_IO_EMULATORS_VERIF_CRASH_AFTER_SAVE", None)
-        os.chdir(old)
-    out["ops"] = list(ops)
-    out["events"] = ev
-    news = [e for e in ev if e["ev"] == "mps_new"]
-    saves = [e for e in ev if e["ev"] == "save"]
-    out["base"] = saves[0]["file"] if saves else None
-    out["n_saves_completed"] = len(saves)
-    return out
-
-
-def _split_saves(run: dict) -> list[list[dict]]:
-    """Group recorded fs ops into saves, using the `save` hook events as delimiters: the audit list
-    and the event list are both in program order; we re-run the bookkeeping with a marker."""
-    return run["saves"]
-
-
-def _record_protocol(ctx: Ctx, kind: str) -> tuple[list[list[dict]], str, dict]:
-    """Run once, uninterrupted, and attribute every fs op to the save during which it happened."""
-    from emu_base import _verif
-
-    # interleave: we wrap _verif.after_save (called at the end of each completed save) to mark boundaries
-    marks: list[int] = []
-    orig_after = _verif.after_save
-
-    def after():
-        marks.append(fsaudit.count())
-        return orig_after()
-
-    _verif.after_save = after
-    try:
-        run = _run_real(ctx.work / f"record_{kind}", kind)
-    finally:
-        _verif.after_save = orig_after
-    if run["crashed"] or run["results"] is None:
-        raise MachineryError("uninterrupted reference run did not finish")
-    if not marks:
-        raise MachineryError("no autosave happened (hook `save` / forced autosave control missing?)")
-    ops = run["ops"]
-    saves = []
-    start = 0
-    for m in marks:
-        saves.append(ops[start:m])
-        start = m
-    tail = ops[start:]
-    run["tail_ops"] = tail
-    return saves, run["base"], run
-
-
-def _to_spec_ops(save_ops: list[tuple], names: dict) -> list[dict]:
-    """audit ops -> spec ops; every create gets its `finish` right before the next operation."""
-    def nm(p: str) -> str:
-        if p not in names:
-            names[p] = f"f{len(names)}"
-        return names[p]
-
-    out: list[dict] = []
-    pending = None
-    for (op, src, dst) in save_ops:
-        if pending is not None:
-            out.append({"op": "finish", "src": pending, "dst": pending})
-            pending = None
-        if op == "create":
-            out.append({"op": "create", "src": nm(dst), "dst": nm(dst)})
-            pending = nm(dst)
-        elif op == "rename":
-            out.append({"op": "rename", "src": nm(src), "dst": nm(dst)})
-        elif op == "remove":
-            out.append({"op": "remove", "src": nm(dst), "dst": nm(dst)})
-        else:
-            out.append({"op": "other", "src": nm(src) if src else "none", "dst": nm(dst) if dst else "none"})
-    if pending is not None:
-        out.append({"op": "finish", "src": pending, "dst": pending})
-    return out
-
-
-def _resume_ok(base: str, ref_results) -> tuple[bool, str]:
-    """The advertised file must exist, unpickle and resume to completion."""
-    import torch
-    from emu_mps import MPSBackend
-
+    wd = Path(job["dir"])
+    rc = _child(job["kind"], wd, "kill", job["n"])
+    out = {"job": job, "killed": rc == 77, "ok": None, "why": None}
+    if rc != 77:
+        return out
+    base = None
+    evf = wd / "events.ndjson"
+    if evf.exists():
+        for line in evf.read_text().splitlines():
+            try:
+                e = json.loads(line)
+            except Exception:
+                continue
+            if e.get("ev") == "save":
+                base = e["file"]
+    if base is None:
+        out["ok"], out["why"] = False, "no completed save recorded before the kill"
+        return out
+    out["base"] = base
     p = Path(base)
     if not p.is_file():
-        return False, "advertised autosave file is missing"
+        out["ok"], out["why"] = False, "advertised autosave file is missing"
+        return out
     try:
         with open(p, "rb") as f:
             pickle.load(f)
-    except BaseException as e:  # truncated pickle etc.
-        return False, f"advertised autosave file does not unpickle: {type(e).__name__}"
+    except BaseException as e:  # noqa
+        out["ok"], out["why"] = False, f"advertised autosave file does not unpickle: {type(e).__name__}: {e} (size {p.stat().st_size})"
+        return out
     old = os.getcwd()
     os.chdir(p.parent)
     try:
+        from emu_mps import MPSBackend
+
         res = MPSBackend.resume(p)
-    except BaseException as e:
-        return False, f"resume raised {type(e).__name__}: {e}"
+        occ = [[float(x) for x in v] for v in res.occupation]
+        out["ok"], out["why"] = True, "ok"
+        out["occupation"] = occ
+    except BaseException as e:  # noqa
+        out["ok"], out["why"] = False, f"resume raised {type(e).__name__}: {e}"
     finally:
         os.chdir(old)
-    try:
-        a = torch.stack(list(res.occupation))
-        b = torch.stack(list(ref_results.occupation))
-        if a.shape != b.shape or not torch.allclose(a, b, atol=1e-6):
-            return True, "resumed-but-different"  # C26's subject; C27 only needs loadability
-    except Exception:
-        pass
-    return True, "ok"
+    return out
+
+
+def _protocol(records: list[dict], base_name: str) -> tuple[list[list[dict]], list[list[tuple]], dict]:
+    """Per save: spec ops (with `finish` placed where the data was observed to be completely on disk) and the
+    kill points [(instruction counter, label)]."""
+    ticks = [r for r in records if "tag" in r]
+    fsops = [r for r in records if "fsop" in r]
+    nsaves = max(t["save"] for t in ticks)
+    names: dict = {base_name: "base"}
+
+    def nm(x: str) -> str:
+        if x not in names:
+            names[x] = f"f{len(names)}"
+        return names[x]
+
+    saves_spec, saves_kill = [], []
+    for k in range(1, nsaves + 1):
+        tk = [t for t in ticks if t["save"] == k]
+        ops = [o for o in fsops if o["save"] == k and tk[0]["n"] <= o["n"] <= tk[-1]["n"]]
+        first_next = next((t["n"] for t in ticks if t["save"] == k + 1), tk[-1]["n"] + 1)
+        # final size of the snapshot written in this save: size of the advertised file when the next save starts / run ends
+        end_fs = next((t["fs"] for t in ticks if t["n"] == first_next), tk[-1]["fs"])
+        items = []   # (position, spec op)
+        for o in ops:
+            if o["fsop"] == "create":
+                items.append((float(o["n"]), {"op": "create", "src": nm(o["dst"]), "dst": nm(o["dst"])}))
+                # follow the file through renames to find its final size, then the first tick at which it has that size
+                cur = o["dst"]
+                chain = [(o["n"], cur)]
+                for o2 in ops:
+                    if o2["n"] > o["n"] and o2["fsop"] == "rename" and o2["src"] == cur:
+                        cur = o2["dst"]
+                        chain.append((o2["n"], cur))
+                final = end_fs.get(cur)
+                if final is None:
+                    continue
+
+                def name_at(n: int) -> str:
+                    c = chain[0][1]
+                    for (nn, nmx) in chain:
+                        if nn < n:
+                            c = nmx
+                    return c
+                fin = None
+                for t in ticks:
+                    if t["n"] > o["n"] and t["fs"].get(name_at(t["n"])) == final:
+                        fin = t["n"]
+                        break
+                if fin is None:
+                    fin = first_next
+                items.append((fin - 0.5, {"op": "finish", "src": nm(name_at(fin)), "dst": nm(name_at(fin))}))
+            elif o["fsop"] == "rename":
+                items.append((float(o["n"]), {"op": "rename", "src": nm(o["src"]), "dst": nm(o["dst"])}))
+            elif o["fsop"] == "remove":
+                items.append((float(o["n"]), {"op": "remove", "src": nm(o["dst"]), "dst": nm(o["dst"])}))
+        items.sort(key=lambda x: x[0])
+        # a finish that lands after a rename of the file concerns the NEW name (the rename moved a partial file)
+        spec_ops = [it[1] for it in items]
+        saves_spec.append(spec_ops)
+        kills = []
+        for pos, op in items:
+            if op["op"] == "finish":
+                continue
+            n = int(pos)
+            kills.append((n, f"before {op['op']}({op['src']}->{op['dst']})"))
+            kills.append((n + 1, f"after {op['op']}({op['src']}->{op['dst']})"))
+        gs = [t["n"] for t in tk if t["tag"] == "getstate"]
+        if gs:
+            kills.append((gs[0], "mid-write (snapshot being pickled)"))
+        kills.append((first_next, "after the save returned"))
+        # pc of a kill point = number of spec ops whose position is < n, + 1
+        out = []
+        for n, label in sorted(set(kills)):
+            pc = sum(1 for pos, _ in items if pos < n) + 1
+            out.append((n, label, pc))
+        saves_kill.append(out)
+    return saves_spec, saves_kill, names
 
 
 def run(ctx: Ctx) -> None:
     ctx.level = "fault_enumeration"
     ctx.assumptions += [
-        "file model: open-for-write truncates and leaves a partial file until closed; rename/replace is atomic; a crash loses nothing already on disk (no power-loss reordering)",
-        "file-system operations are observed through Python audit events (open, os.rename, os.remove); native code writing files would be invisible",
-        "mid-write crash is injected while the snapshot object is pickled (MPSBackendImpl.__getstate__)",
+        "file model of Autosave.tla: open-for-write truncates and leaves a partial file until its data is on disk; rename/replace is atomic and moves whatever the file holds; a process death loses exactly the data not yet written to the file (no power-loss reordering)",
+        "file-system operations are observed through Python audit events (open, os.rename, os.remove); the completion of the write is observed as the first instruction of save_simulation at which the file has its final size",
+        "crash = os._exit in a child process immediately before a chosen bytecode instruction of save_simulation (before / after every file operation, mid-write, after the save)",
     ]
     kinds = ["tdvp"] if ctx.quick else ["tdvp", "dmrg", "noisy"]
+    jobs = []
+    plans = {}
     for kind in kinds:
-        saves_raw, base, ref = _record_protocol(ctx, kind)
-        names: dict = {os.path.abspath(base): "base"}
-        n_use = min(3, len(saves_raw))
-        saves = [_to_spec_ops(s, names) for s in saves_raw[:n_use]]
-        ctx.sample({"kind": kind, "save_2_protocol": saves[1] if len(saves) > 1 else saves[0]})
-        if n_use < 3:
-            raise MachineryError(f"{kind}: fewer than 3 autosaves in the reference run")
-        if any(not s for s in saves):
-            raise MachineryError(f"{kind}: a completed save performed no visible file-system operation")
+        rec_dir = ctx.work / f"record_{kind}"
+        rc = _child(kind, rec_dir, "record")
+        if rc != 0:
+            raise MachineryError(f"{kind}: recording run did not finish (rc={rc})")
+        records = [json.loads(l) for l in (rec_dir / "record.jsonl").read_text().splitlines()]
+        final = [r for r in records if r.get("final")]
+        if not final:
+            raise MachineryError(f"{kind}: recording run produced no results")
+        base = None
+        for line in (rec_dir / "events.ndjson").read_text().splitlines():
+            e = json.loads(line)
+            if e.get("ev") == "save":
+                base = os.path.basename(e["file"])
+                break
+        if base is None:
+            raise MachineryError(f"{kind}: no autosave happened (forced-autosave control / `save` hook missing?)")
+        saves, kills, names = _protocol(records, base)
+        if len(saves) < 3 or any(not s for s in saves[:3]):
+            raise MachineryError(f"{kind}: fewer than 3 recorded saves with visible file-system operations")
+        # distinct protocol shapes among all saves (operation order incl. the observed completion of the write)
+        shapes: dict = {}
+        for k, sp in enumerate(saves, start=1):
+            if k >= 2 and sp:
+                shapes.setdefault(json.dumps(sp), []).append(k)
+        chosen = sorted({2, 3} | {ks[0] for ks in shapes.values()} | {ks[len(ks) // 2] for ks in shapes.values()})
+        chosen = [k for k in chosen if k <= len(saves)]
+        ctx.coverage.setdefault("protocol_shapes", {})[kind] = {"saves_recorded": len(saves), "distinct_shapes": len(shapes), "saves_injected": chosen}
+        ctx.sample({"kind": kind, "save_2_protocol": saves[1], "distinct_shapes": [json.loads(x) for x in list(shapes)[:3]]})
+        # TLC on a protocol made of: the first save, then one representative save per chosen index (renumbered 2..)
+        sel = [saves[0]] + [saves[k - 1] for k in chosen]
         proto = ctx.work / f"proto_{kind}.json"
-        proto.write_text(json.dumps({"base": "base", "saves": saves}))
-        # ---- TLC on the recorded protocol
+        proto.write_text(json.dumps({"base": "base", "saves": sel}))
         res_inv = run_tlc("Autosave", "Autosave.cfg", workdir=ctx.work, name=f"inv_{kind}", env={"PROTO_FILE": str(proto)}, workers=4, coverage=True)
         ctx.add_tlc(res_inv)
         res_tab = run_tlc("Autosave", "Autosave_table.cfg", workdir=ctx.work, name=f"table_{kind}", env={"PROTO_FILE": str(proto)}, workers=1)
         if res_tab["violated"]:
-            # SaveAdvertisesNew fails on the recorded protocol: a completed save does not leave the new snapshot under the advertised name
             ctx.violation("autosave:completed-save-does-not-advertise-new-snapshot",
-                          "after a completed save the advertised name does not hold the new complete snapshot (recorded protocol, TLC)", {"kind": kind, "saves": saves})
+                          "after a completed save the advertised name does not hold the new complete snapshot (recorded protocol, TLC)", {"kind": kind, "saves": sel})
         pred = {}
         for t in printed_tuples(res_tab["out"], "CRASH"):
-            _, k, pc, first, st, v, ok = t
-            pred[(k, pc)] = bool(ok)
-        model_bad = sorted(k for k, ok in pred.items() if not ok and k[0] >= 2)
-        ctx.log(f"{kind}: recorded {[len(s) for s in saves]} ops per save; TLC: {res_inv['distinct']} states, invariant "
-                f"{'VIOLATED ' + str(res_inv['violated']) if res_inv['violated'] else 'holds'}; predicted-unsafe crash points {model_bad}")
-        # ---- real fault injection at every crash point of saves 2 and 3
-        ops_before = [0]
-        for s in saves_raw:
-            ops_before.append(ops_before[-1] + len(s))
-        for k in (2, 3):
-            sp = saves[k - 1]
-            raw_index = 0  # index among this save's RAW (audited) ops
-            for pc in range(1, len(sp) + 2):
-                label_prev = "start-of-save" if pc == 1 else f"{sp[pc-2]['op']}({sp[pc-2]['src']}->{sp[pc-2]['dst']})"
-                label_next = "end-of-save" if pc == len(sp) + 1 else f"{sp[pc-1]['op']}({sp[pc-1]['src']}->{sp[pc-1]['dst']})"
-                wd = ctx.work / f"inj_{kind}_{k}_{pc}"
-                if pc == len(sp) + 1:
-                    run = _run_real(wd, kind, crash_after_save=k)
-                elif sp[pc - 1]["op"] == "finish":
-                    run = _run_real(wd, kind, midwrite_save=k)
-                    if not run["crashed"]:
-                        ctx.notes.append(f"{kind}: mid-write crash point of save {k} could not be injected (snapshot not written via __getstate__)")
-                        continue
-                else:
-                    run = _run_real(wd, kind, crash_op=ops_before[k - 1] + raw_index + 1)
-                    raw_index += 1
-                if not run["crashed"]:
-                    raise MachineryError(f"{kind}: crash injection at save {k} pc {pc} did not fire")
-                ok, why = _resume_ok(str(Path(wd) / Path(base).name), ref["results"])
-                # advertised name inside this run's own directory: take it from its own events
-                if run["base"]:
-                    ok, why = _resume_ok(run["base"], ref["results"])
-                p = pred.get((k, pc))
-                ctx.case(("crash", kind, k, pc), sample={"kind": kind, "save": k, "crash_after": label_prev, "crash_before": label_next, "real_loadable": ok, "model_loadable": p})
-                ctx.traces_validated += 1
-                if not ok:
-                    ctx.violation(f"autosave:crash-window:after {label_prev} before {label_next}",
-                                  f"crash during autosave #{k} after {label_prev} and before {label_next} leaves no loadable snapshot under the advertised name ({why})",
-                                  {"kind": kind, "save": k, "pc": pc, "protocol": sp, "why": why, "model_predicted_loadable": p})
-                if p is not None and p != ok:
-                    ctx.model_drift(f"{kind}: save {k} pc {pc}: Autosave.tla predicts loadable={p}, real code loadable={ok}")
-        # the run's end: autosave removed (C26 checks it too)
-    ctx.coverage["rule"] = "one case per (solver kind, save number in {2,3}, crash point = position between two recorded file-system operations incl. mid-write and after the save)"
+            _, kk, pc, first, st, v, ok = t
+            if kk >= 2:
+                pred[(chosen[kk - 2], pc)] = bool(ok)
+        model_bad = sorted(k for k, ok in pred.items() if not ok)
+        ctx.log(f"{kind}: {len(saves)} saves recorded, {len(shapes)} distinct protocol shape(s); TLC {res_inv['distinct']} states, AdvertisedLoadable "
+                f"{'VIOLATED' if res_inv['violated'] else 'holds'}; predicted-unsafe crash points {model_bad}")
+        plans[kind] = (saves, kills, pred, final[0]["occupation"])
+        for k in chosen:
+            for (n, label, pc) in kills[k - 1]:
+                jobs.append({"kind": kind, "save": k, "n": n, "label": label, "pc": pc, "dir": str(ctx.work / f"kill_{kind}_{k}_{n}")})
+    results = pmap(kill_worker, jobs)
+    for r in results:
+        j = r["job"]
+        saves, kills, pred, ref_occ = plans[j["kind"]]
+        if not r["killed"]:
+            raise MachineryError(f"{j['kind']}: kill point {j['n']} ({j['label']}) was never reached")
+        p = pred.get((j["save"], j["pc"]))
+        if j["label"] == "after the save returned":
+            p = True if p is None else p
+        ctx.case(("kill", j["kind"], j["save"], j["n"]), sample={"kind": j["kind"], "save": j["save"], "crash": j["label"], "real_loadable": r["ok"], "model_loadable": p})
+        ctx.traces_validated += 1
+        if not r["ok"]:
+            ctx.violation(f"autosave:crash-window:{j['label']}",
+                          f"process death during autosave #{j['save']} {j['label']} leaves no loadable snapshot under the advertised name ({r['why']})",
+                          {"kind": j["kind"], "save": j["save"], "instruction": j["n"], "protocol": saves[j["save"] - 1], "why": r["why"], "model_predicted_loadable": p})
+        else:
+            import numpy as np
+
+            if not np.allclose(np.asarray(r["occupation"]), np.asarray(ref_occ), atol=1e-6) and j["kind"] != "noisy":
+                ctx.notes.append(f"{j['kind']}: resumed results differ from the uninterrupted run after a kill {j['label']} (C26's subject)")
+        if p is not None and p != bool(r["ok"]):
+            ctx.model_drift(f"{j['kind']}: save {j['save']} {j['label']}: Autosave.tla predicts loadable={p}, real code loadable={r['ok']}")
+    ctx.coverage["rule"] = "one case per (solver kind, save = 2, 3 and one representative of every distinct recorded protocol shape, kill point = before / after every recorded file-system operation, mid-write, after the save); kill = os._exit of a child process"
     ctx.coverage["exhaustive"] = True
